@@ -220,7 +220,7 @@ func cmdRun(args []string) int {
 		}
 		r := &EntryResult{Entry: e.Name, Paths: ex.paths, Forks: ex.forks, Branches: ex.branches, EndReasons: ex.endReasons,
 			Obligations: ex.obligations, ConcreteObl: ex.concreteObl, IvObl: ex.ivObl, IvDecided: ex.ivDecided,
-			Queries: map[string]int{"total": ex.sstats.Queries, "sat": ex.sstats.Sat, "unsat": ex.sstats.Unsat, "unknown": ex.sstats.Unknown, "solver_errors": ex.sstats.Errors, "fallback_calls": ex.fbCalls, "fallback_decided_by_cvc5_bv_as_int": ex.fbCvc5, "fallback_decided_by_fresh_z3": ex.fbZ3, "solver_processes_recycled": ex.recycled, "solver_processes_restarted_after_death": ex.revived},
+			Queries: map[string]int{"total": ex.sstats.Queries, "sat": ex.sstats.Sat, "unsat": ex.sstats.Unsat, "unknown": ex.sstats.Unknown, "solver_errors": ex.sstats.Errors, "fallback_calls": ex.fbCalls, "fallback_decided_by_cvc5_bv_as_int": ex.fbCvc5, "fallback_decided_by_fresh_z3": ex.fbZ3, "fallback_models_rejected_by_evaluation": ex.fbBad, "solver_processes_recycled": ex.recycled, "solver_processes_restarted_after_death": ex.revived},
 			SolverS: ex.sstats.Time.Seconds(), WallS: time.Since(t0).Seconds(), Steps: ex.steps, Reach: ex.reach,
 			Violations: len(ex.violations), Unknowns: ex.unknowns, Unsupported: ex.unsupported, EngineErrs: ex.engineErrs, Samples: ex.samples, Opts: e.Opts}
 		results = append(results, r)
@@ -658,7 +658,11 @@ func selftest(id string, perEntry int, verbose bool) (agree, total int) {
 			os.Remove(mf)
 			if nerr != nil {
 				if verbose {
-					fmt.Printf("  %s #%d: native run failed: %v\n%s\n", e.Name, i, nerr, lastLines(out, 15))
+					nl := 15
+					if os.Getenv("VX_SELFTEST_DEBUG") != "" {
+						nl = 400
+					}
+					fmt.Printf("  %s #%d: native run failed: %v\n%s\n", e.Name, i, nerr, lastLines(out, nl))
 				}
 				continue
 			}
